@@ -1,6 +1,7 @@
 package scen
 
 import (
+	"bytes"
 	"simlal/sim/actors"
 	"time"
 
@@ -81,6 +82,18 @@ func genC16Plan(r *sim.Rng, tier string) RelayPlan {
 	for i := range pl.Pubs {
 		if pl.Pubs[i].AudioCodec != 0 && r.Bool(0.8) {
 			pl.Pubs[i].AudioCodec = media.SoundAAC
+		}
+	}
+	// a fresh consumer right after an input has ended (and before the next one of that name starts)
+	if r.Bool(0.4) {
+		for i := 0; i < len(pl.Ops); i++ {
+			if pl.Ops[i].Kind == "stop_pub" && r.Bool(0.5) {
+				ci := len(pl.Cons)
+				pl.Cons = append(pl.Cons, ConsPlan{Stream: pl.Pubs[pl.Ops[i].Pub].Stream, Proto: []string{"rtmp", "flv", "wsflv"}[r.Intn(3)]})
+				ins := []RelayOp{{Kind: "settle"}, {Kind: "join", Cons: ci}, {Kind: "settle"}}
+				pl.Ops = append(pl.Ops[:i+1:i+1], append(ins, pl.Ops[i+1:]...)...)
+				i += len(ins)
+			}
 		}
 	}
 	// vary how inputs end: replace some stop_pub ops by kick / idle timeout
@@ -379,6 +392,51 @@ func CheckC16(k *sim.Kernel, rr *RelayRun, hls *HlsTracker) {
 			inc, _, _, ok := media.ParseID(it.Payload)
 			if ok && dead[inc] {
 				k.Violate("C16.stale-data", "cons%d(%s) joined after publisher incarnation %d had left, yet item #%d %s comes from it", ci, c.Plan.Proto, inc, j, describe(&it))
+			}
+		}
+	}
+	// 5a. ... nor its codec information: a consumer that joins between a video incarnation and an audio-only one must not
+	// be left waiting for a key frame that will never come
+	for ci, c := range rr.Cons {
+		if !c.Joined || c.Left || c.Kicked || c.Stalled || (c.Rtmp == nil && (c.Http == nil || (c.Plan.Proto != "flv" && c.Plan.Proto != "wsflv"))) {
+			continue
+		}
+		joinSent, joinDone := c.JoinSentStep(), c.JoinDoneStep()
+		if joinSent < 0 || joinDone < 0 {
+			continue
+		}
+		incs := accepted[c.Plan.Stream]
+		for bi, b := range incs {
+			if bi == 0 || b.Plan.VideoCodec != 0 || len(b.Actor.Sent) == 0 {
+				continue
+			}
+			a := incs[bi-1]
+			// a had video and was gone before the consumer asked; b's first message was processed after the join was done
+			if a.Plan.VideoCodec == 0 || !(a.Actor.ClosedStep >= 0 && a.Actor.ClosedStep < joinSent && a.Actor.Conn.LastUnlockStep() < joinSent) {
+				continue
+			}
+			if s0 := b.Actor.Sent[0]; s0.ProcessedStep < 0 || s0.ProcessedStep <= joinDone {
+				continue
+			}
+			processed, got := 0, 0
+			items := consItems(c)
+			for ui := range b.Units {
+				if b.Units[ui].Kind != media.KAudio || len(b.Units[ui].Msg.Payload) == 0 || ui >= len(b.Actor.Sent) || b.Actor.Sent[ui].ProcessedStep < 0 {
+					continue
+				}
+				processed++
+				for j := range items {
+					if items[j].Type == b.Units[ui].Msg.Type && bytes.Equal(items[j].Payload, b.Units[ui].Msg.Payload) {
+						got++
+						break
+					}
+				}
+			}
+			if processed >= 3 && got == 0 {
+				k.Violate("C16.stale-codec-info", "cons%d(%s) joined after the video publisher (incarnation %d) had left and before the audio-only publisher (incarnation %d) started, and received none of its %d audio frames: it is still waiting for a video key frame of a stream that has no video", ci, c.Plan.Proto, a.Plan.Inc, b.Plan.Inc, processed)
+			}
+			if processed >= 3 {
+				k.Probe("c16_gap_joiner_judged")
 			}
 		}
 	}
